@@ -269,3 +269,7 @@ def run(repo: Repo, rep: Report, tier: str) -> None:
     ep = entry_points(repo)
     roots = ep["PARSE"] + ep["DUMP"] + [f.key for f in tfuncs]
     residue_rule(repo, rep, rid, cg, cg.closure(roots), roots)
+    from .c08 import generated_globals_rule
+
+    generated_globals_rule(repo, rep, "C14.R6")
+
